@@ -593,6 +593,47 @@ func runC20(r *core.Run) {
 		c.expectRefusal("empty-body", 0, c.do("POST", "/v1/swap", ""))
 		c.expectRefusal("bad-json", 0, c.do("POST", "/v1/swap", "{"))
 		_ = uh
+		// spending conditions (NUT-11 / NUT-14): the NUT error table has no row for a bad witness,
+		// so only the {detail, code} shape is demanded (code 0 = any)
+		{
+			lk := newLockKeys(rng)
+			mk := func(cfg lockCfg) (cashu.Proof, string) {
+				secret := cfg.Secret()
+				lp, err := env.FundOutputs([]client.Output{client.NewOutput(rng, act.Id, 8, secret)})
+				if err != nil || len(lp) != 1 {
+					return cashu.Proof{}, ""
+				}
+				return lp[0], secret
+			}
+			sw := func(p cashu.Proof) c20Resp {
+				return c.do("POST", "/v1/swap", swapBody(cashu.Proofs{p}, client.Outputs(rng, act.Id, client.Split(8-fee(1)))))
+			}
+			p2pk := lockCfg{Kind: "P2PK", Data: pubHex(lk.Lock), Nonce: client.RandHex(rng, 16)}
+			if p, secret := mk(p2pk); secret != "" {
+				c.expectRefusal("p2pk-witness-missing", 0, sw(p))
+				p.Witness = buildWitness([]byte(secret), []sigSpec{{key: lk.F}}, nil, false)
+				c.expectRefusal("p2pk-signature-by-other-key", 0, sw(p))
+				p.Witness = `{"signatures":"x"}`
+				c.expectRefusal("p2pk-witness-malformed", 0, sw(p))
+				mqx, _ := meltQuote(3)
+				p.Witness = buildWitness([]byte(secret), []sigSpec{{key: lk.F}}, nil, false)
+				c.expectRefusal("p2pk-signature-by-other-key-melt", 0, c.do("POST", "/v1/melt/bolt11", map[string]any{"quote": mqx, "inputs": proofsJSON(cashu.Proofs{p})}))
+			}
+			htlc := lockCfg{Kind: "HTLC", Data: lk.Hash, Nonce: client.RandHex(rng, 16)}
+			if p, secret := mk(htlc); secret != "" {
+				c.expectRefusal("htlc-witness-missing", 0, sw(p))
+				wrong := strings.Repeat("ab", 32)
+				p.Witness = buildWitness([]byte(secret), nil, &wrong, false)
+				c.expectRefusal("htlc-preimage-wrong", 0, sw(p))
+			}
+			sigall := lockCfg{Kind: "P2PK", Data: pubHex(lk.Lock), Sigflag: "SIG_ALL", Nonce: client.RandHex(rng, 16)}
+			if p, secret := mk(sigall); secret != "" {
+				p.Witness = buildWitness([]byte(secret), []sigSpec{{key: lk.Lock}}, nil, false)
+				c.expectRefusal("sig-all-outputs-unsigned", 0, sw(p))
+				mqx, _ := meltQuote(3)
+				c.expectRefusal("sig-all-in-melt", 0, c.do("POST", "/v1/melt/bolt11", map[string]any{"quote": mqx, "inputs": proofsJSON(cashu.Proofs{p})}))
+			}
+		}
 
 		// ---------------- (4) NUT-19 cache
 		c.cache(rng, "swap", "/v1/swap", sBody, swapRespRaw, func() []byte {
@@ -631,6 +672,19 @@ func (c *c20) cache(rng *rand.Rand, name, path string, body, firstResp []byte, o
 	}
 	if m := mutating(rp.trace); len(m) > 0 {
 		c.r.Violate("cache:"+name+":replay-executed", fmt.Sprintf("the replay of a cached %s made state-changing calls: %v", name, m), c.sig, nil)
+	}
+	// and again: the entry stays for its whole lifetime, not for one replay
+	for i := 2; i <= 4; i++ {
+		rp := c.do("POST", path, body)
+		c.r.Eval(fmt.Sprintf("cache/%s/identical-replay-%d", name, i), true)
+		if rp.status != 200 || !bytes.Equal(rp.raw, firstResp) {
+			c.r.Violate("cache:"+name+":repeated-replay-differs", fmt.Sprintf("replay no. %d of a successful %s was answered %d %s", i, name, rp.status, truncStr(string(rp.raw), 200)), c.sig, nil)
+			break
+		}
+		if m := mutating(rp.trace); len(m) > 0 {
+			c.r.Violate("cache:"+name+":repeated-replay-executed", fmt.Sprintf("replay no. %d of a cached %s made state-changing calls: %v", i, name, m), c.sig, nil)
+			break
+		}
 	}
 	near := map[string]func() c20Resp{
 		"trailing-whitespace": func() c20Resp { return c.do("POST", path, append(append([]byte{}, body...), ' ')) },
